@@ -968,247 +968,98 @@ end full
 
 end PhreeqcVerif.Pitzer
 
-/-! ## the source statements the models were written from (translator `tools/gen_pitzer.py`)
+/-! ## the source the models were written from (translator `tools/gen_pitzer.py`)
 
-Each theorem says: the statements of the named function in the *current* source, as regenerated into
-`Gen/GammaSrc.lean` on every run, are exactly the ones listed here (the ones the Lean model transcribes). Any edit of a
-modelled statement makes the obligation fail; the check then runs its failing-input search. -/
+The translator parses the functions with clang and executes them symbolically; what it regenerates into
+`Gen/GammaSrc.lean` on every run is, per function, the operator tree of every quantity the function stores outside its
+locals (locals, hoisted sub-expressions, named constants and one-line static helpers inlined; `if` / `switch` /
+`continue` / `return` as guards; loops as folds; independent statements in no particular order).  Each theorem says that
+these trees are the ones listed here — the ones the Lean model transcribes.  A behaviour-preserving rewrite of the C++
+leaves them unchanged; a change of an operator, operand, constant, guard or order of evaluation of a stored quantity
+makes the obligation fail, and the check then runs its failing-input search. -/
 namespace PhreeqcVerif.C16Src
 open PhreeqcVerif.Gen.GammaSrc
 
-/-- `pitzer()` — transcribed by `Pitzer.pitzerP`, `lg1`, `fDH`, `osmot0`, `gamclm`, `pcorrOf`, `lnTermsConst`, `lnTermsI`, `osConst`, `osI`, `fVar`, `csumOf` -/
-theorem pitzerStmts_as_modelled : pitzerStmts = [
-  "CONV=1.0/LOG_10",
-  "XX=0.0",
-  "OSUM=0.0",
-  "IPRSNT[i]=FALSE",
-  "M[i]=0.0",
-  "M[i]=under(spec[i]->lm)",
-  "if(M[i]>MIN_TOTAL)IPRSNT[i]=TRUE",
-  "}}if(ICON==TRUE){IPRSNT[IC]=TRUE",
-  "LGAMMA[i]=0.0",
-  "XX=XX+M[i]*fabs(spec[i]->z)",
-  "OSUM=OSUM+M[i]",
-  "}BIGZ=XX",
-  "DI=sqrt(I)",
-  "B=1.2",
-  "F=F1=F2=-A0*(DI/(1.0+B*DI)+2.0*log(1.0+B*DI)/B)",
-  "if(patm_x>1.0){LDBLEpap=0.0",
-  "pap=(7e-5+1.93e-9*pow(TK-250.0,2.0))*patm_x",
-  "B1=B-(pap>0.2?0.2:pap)",
-  "if(TK>263.0){pap=(9.65e-10*pow(TK-263.0,2.773))*pow(patm_x,0.623)",
-  "}B2=B-(pap>0.2?0.2:pap)",
-  "if(B1!=0)F1=-A0*(DI/(1.0+B1*DI)+2.0*log(1.0+B1*DI)/B1)",
-  "if(B2!=0)F2=-A0*(DI/(1.0+B2*DI)+2.0*log(1.0+B2*DI)/B2)",
-  "}XXX=2.0*DI",
-  "XXX=(1.0-(1.0+XXX-XXX*XXX*0.5)*exp(-XXX))/(XXX*XXX)",
-  "GAMCLM=F1",
-  "if(mcb0!=NULL)GAMCLM+=I*2.0*mcb0->p",
-  "if(mcb1!=NULL)GAMCLM+=I*2.0*mcb1->p*XXX",
-  "if(mcc0!=NULL)GAMCLM+=1.5*mcc0->p*I*I",
-  "CSUM=0.0",
-  "OSMOT=-(A0)*pow(I,(LDBLE)1.5)/(1.0+B*DI)",
-  "theta_params[i]->etheta=etheta",
-  "theta_params[i]->ethetap=ethetap",
-  "F_var=0",
-  "switch(pitz_params[i]->type){caseTYPE_B0:LGAMMA[i0]+=M[i1]*2.0*param",
-  "LGAMMA[i1]+=M[i0]*2.0*param",
-  "OSMOT+=M[i0]*M[i1]*param",
-  "caseTYPE_B1:if(param!=0.0){F_var=M[i0]*M[i1]*param*GP(l_alpha*DI)/I",
-  "LGAMMA[i0]+=M[i1]*2.0*param*G(l_alpha*DI)",
-  "LGAMMA[i1]+=M[i0]*2.0*param*G(l_alpha*DI)",
-  "OSMOT+=M[i0]*M[i1]*param*exp(-l_alpha*DI)",
-  "caseTYPE_B2:if(param!=0.0){F_var=M[i0]*M[i1]*param*GP(l_alpha*DI)/I",
-  "LGAMMA[i0]+=M[i1]*2.0*param*G(l_alpha*DI)",
-  "LGAMMA[i1]+=M[i0]*2.0*param*G(l_alpha*DI)",
-  "OSMOT+=M[i0]*M[i1]*param*exp(-l_alpha*DI)",
-  "caseTYPE_C0:CSUM+=M[i0]*M[i1]*pitz_params[i]->p/(2.0*sqrt(fabs(z0*z1)))",
-  "LGAMMA[i0]+=M[i1]*BIGZ*param/(2.0*sqrt(fabs(z0*z1)))",
-  "LGAMMA[i1]+=M[i0]*BIGZ*param/(2.0*sqrt(fabs(z0*z1)))",
-  "OSMOT+=M[i0]*M[i1]*BIGZ*param/(2.0*sqrt(fabs(z0*z1)))",
-  "caseTYPE_THETA:LGAMMA[i0]+=2.0*M[i1]*(param)",
-  "LGAMMA[i1]+=2.0*M[i0]*(param)",
-  "OSMOT+=M[i0]*M[i1]*param",
-  "F_var=M[i0]*M[i1]*ethetap",
-  "LGAMMA[i0]+=2.0*M[i1]*etheta",
-  "LGAMMA[i1]+=2.0*M[i0]*etheta",
-  "OSMOT+=M[i0]*M[i1]*(etheta+I*ethetap)",
-  "LGAMMA[i0]+=M[i1]*M[i2]*param",
-  "LGAMMA[i1]+=M[i0]*M[i2]*param",
-  "LGAMMA[i2]+=M[i0]*M[i1]*param",
-  "OSMOT+=M[i0]*M[i1]*M[i2]*param",
-  "caseTYPE_LAMBDA:LGAMMA[i0]+=M[i1]*param*pitz_params[i]->ln_coef[0]",
-  "LGAMMA[i1]+=M[i0]*param*pitz_params[i]->ln_coef[1]",
-  "OSMOT+=M[i0]*M[i1]*param*pitz_params[i]->os_coef",
-  "LGAMMA[i0]+=M[i1]*M[i2]*param",
-  "LGAMMA[i1]+=M[i0]*M[i2]*param",
-  "LGAMMA[i2]+=M[i0]*M[i1]*param",
-  "OSMOT+=M[i0]*M[i1]*M[i2]*param",
-  "LGAMMA[i0]+=M[i1]*M[i2]*param*pitz_params[i]->ln_coef[0]",
-  "LGAMMA[i1]+=M[i0]*M[i2]*param*pitz_params[i]->ln_coef[1]",
-  "LGAMMA[i2]+=M[i0]*M[i1]*param*pitz_params[i]->ln_coef[2]",
-  "OSMOT+=M[i0]*M[i1]*M[i2]*param*pitz_params[i]->os_coef",
-  "LGAMMA[i0]+=M[i1]*M[i2]*param",
-  "LGAMMA[i1]+=M[i0]*M[i2]*param",
-  "LGAMMA[i2]+=M[i0]*M[i1]*param",
-  "OSMOT+=M[i0]*M[i1]*M[i2]*param",
-  "}F+=F_var",
-  "F1+=F_var",
-  "F2+=F_var",
-  "F_var=(z0==1?F1:(z0==2.0?F2:F))",
-  "LGAMMA[i]+=z0*z0*F_var+z0*CSUM",
-  "}if(ICON==TRUE){PHIMAC=LGAMMA[IC]-GAMCLM",
-  "LGAMMA[i]=LGAMMA[i]+spec[i]->z*PHIMAC",
-  "}}COSMOT=1.0+2.0*OSMOT/OSUM",
-  "AW=exp(-OSUM*COSMOT/55.50837)",
-  "spec[i]->lg_pitzer=LGAMMA[i]*CONV"
+/-- `pitzer()` — transcribed by `Pitzer.pitzerP`, `lg1`, `fDH`, `osmot0`, `gamclm`, `pcorrOf`, `lnTermsConst`, `lnTermsI`, `osConst`, `osI`, `fVar`, `csumOf`, `presentOf` -/
+theorem pitzerNF_as_modelled : pitzerNF = [
+  ("$ret", "1"),
+  ("AW", "t1 := ((spec[s_list[$k1]] != NULL) && (spec[s_list[$k1]]->in == 1)); t2 := [s_list[$k1]]; t3 := store($prev1{M[]}, t2 := 0.0); t4 := (((spec[s_list[$k1]]->type == 5) || (spec[s_list[$k1]]->type == 6)) || (spec[s_list[$k1]]->type == 7)); t5 := ite(t4, 0.0, under(spec[s_list[$k1]]->lm)); t6 := fold($k1 from 0 ++ while ($k1 < size(s_list)); init M[]; step ite(t1, store(t3, t2 := t5), t3)); t7 := fold($k1 from 0 ++ while ($k1 < size(s_list)); init 0.0; step ($prev1{OSUM} + sel(t6, t2))); t8 := (sel(t6, [pitz_params[param_list[$k1]]->ispec[0]]) * sel(t6, [pitz_params[param_list[$k1]]->ispec[1]])); t9 := (t8 * pitz_params[param_list[$k1]]->p); t10 := ($prev1{OSMOT} + t9); t11 := ite((pitz_params[param_list[$k1]]->p != 0.0), ($prev1{OSMOT} + (t9 * exp((-pitz_params[param_list[$k1]]->alpha * sqrt(mu_x))))), $prev1{OSMOT}); t12 := store($prev1{IPRSNT[]}, t2 := 0); t13 := fold($k1 from 0 ++ while ($k1 < size(s_list)); init IPRSNT[]; step ite(t1, ite((t5 > MIN_TOTAL), store(t12, t2 := !t4), t12), t12)); t14 := [pitz_params[param_list[$k1]]->ispec[2]]; t15 := (sel(ite((ICON == 1), store(t13, [IC] := 1), t13), t14) == 0); t16 := ((t8 * sel(t6, t14)) * pitz_params[param_list[$k1]]->p); t17 := ite(t15, $prev1{OSMOT}, ($prev1{OSMOT} + t16)); exp(((-t7 * (1.0 + ((2.0 * fold($k1 from 0 ++ while ($k1 < size(param_list)); init ((-A0 * pow(mu_x, 1.5)) / (1.0 + (1.2 * sqrt(mu_x)))); step switch(pitz_params[param_list[$k1]]->type; TYPE_B0 -> t10; TYPE_B1 -> t11; TYPE_B2 -> t11; TYPE_C0 -> ($prev1{OSMOT} + (((t8 * fold($k1 from 0 ++ while ($k1 < size(s_list)); init 0.0; step ($prev1{XX} + (sel(t6, t2) * fabs(spec[s_list[$k1]]->z))))) * pitz_params[param_list[$k1]]->p) / (2.0 * sqrt(fabs((spec[pitz_params[param_list[$k1]]->ispec[0]]->z * spec[pitz_params[param_list[$k1]]->ispec[1]]->z)))))); TYPE_ETA -> t17; TYPE_ETHETA -> ite((use_etheta == 1), ($prev1{OSMOT} + (t8 * (pitz_params[param_list[$k1]]->thetas->etheta + (mu_x * pitz_params[param_list[$k1]]->thetas->ethetap)))), $prev1{OSMOT}); TYPE_LAMBDA -> ($prev1{OSMOT} + (t9 * pitz_params[param_list[$k1]]->os_coef)); TYPE_MU -> ite(t15, $prev1{OSMOT}, ($prev1{OSMOT} + (t16 * pitz_params[param_list[$k1]]->os_coef))); TYPE_PSI -> t17; TYPE_THETA -> t10; TYPE_ZETA -> t17; else -> $prev1{OSMOT}))) / t7))) / 55.50837))"),
+  ("COSMOT", "t1 := ((spec[s_list[$k1]] != NULL) && (spec[s_list[$k1]]->in == 1)); t2 := [s_list[$k1]]; t3 := store($prev1{M[]}, t2 := 0.0); t4 := (((spec[s_list[$k1]]->type == 5) || (spec[s_list[$k1]]->type == 6)) || (spec[s_list[$k1]]->type == 7)); t5 := ite(t4, 0.0, under(spec[s_list[$k1]]->lm)); t6 := fold($k1 from 0 ++ while ($k1 < size(s_list)); init M[]; step ite(t1, store(t3, t2 := t5), t3)); t7 := (sel(t6, [pitz_params[param_list[$k1]]->ispec[0]]) * sel(t6, [pitz_params[param_list[$k1]]->ispec[1]])); t8 := (t7 * pitz_params[param_list[$k1]]->p); t9 := ($prev1{OSMOT} + t8); t10 := ite((pitz_params[param_list[$k1]]->p != 0.0), ($prev1{OSMOT} + (t8 * exp((-pitz_params[param_list[$k1]]->alpha * sqrt(mu_x))))), $prev1{OSMOT}); t11 := store($prev1{IPRSNT[]}, t2 := 0); t12 := fold($k1 from 0 ++ while ($k1 < size(s_list)); init IPRSNT[]; step ite(t1, ite((t5 > MIN_TOTAL), store(t11, t2 := !t4), t11), t11)); t13 := [pitz_params[param_list[$k1]]->ispec[2]]; t14 := (sel(ite((ICON == 1), store(t12, [IC] := 1), t12), t13) == 0); t15 := ((t7 * sel(t6, t13)) * pitz_params[param_list[$k1]]->p); t16 := ite(t14, $prev1{OSMOT}, ($prev1{OSMOT} + t15)); (1.0 + ((2.0 * fold($k1 from 0 ++ while ($k1 < size(param_list)); init ((-A0 * pow(mu_x, 1.5)) / (1.0 + (1.2 * sqrt(mu_x)))); step switch(pitz_params[param_list[$k1]]->type; TYPE_B0 -> t9; TYPE_B1 -> t10; TYPE_B2 -> t10; TYPE_C0 -> ($prev1{OSMOT} + (((t7 * fold($k1 from 0 ++ while ($k1 < size(s_list)); init 0.0; step ($prev1{XX} + (sel(t6, t2) * fabs(spec[s_list[$k1]]->z))))) * pitz_params[param_list[$k1]]->p) / (2.0 * sqrt(fabs((spec[pitz_params[param_list[$k1]]->ispec[0]]->z * spec[pitz_params[param_list[$k1]]->ispec[1]]->z)))))); TYPE_ETA -> t16; TYPE_ETHETA -> ite((use_etheta == 1), ($prev1{OSMOT} + (t7 * (pitz_params[param_list[$k1]]->thetas->etheta + (mu_x * pitz_params[param_list[$k1]]->thetas->ethetap)))), $prev1{OSMOT}); TYPE_LAMBDA -> ($prev1{OSMOT} + (t8 * pitz_params[param_list[$k1]]->os_coef)); TYPE_MU -> ite(t14, $prev1{OSMOT}, ($prev1{OSMOT} + (t15 * pitz_params[param_list[$k1]]->os_coef))); TYPE_PSI -> t16; TYPE_THETA -> t9; TYPE_ZETA -> t16; else -> $prev1{OSMOT}))) / fold($k1 from 0 ++ while ($k1 < size(s_list)); init 0.0; step ($prev1{OSUM} + sel(t6, t2)))))"),
+  ("IPRSNT[]", "t1 := (((spec[s_list[$k1]]->type == 5) || (spec[s_list[$k1]]->type == 6)) || (spec[s_list[$k1]]->type == 7)); t2 := [s_list[$k1]]; t3 := store($prev1{IPRSNT[]}, t2 := 0); t4 := fold($k1 from 0 ++ while ($k1 < size(s_list)); init IPRSNT[]; step ite(((spec[s_list[$k1]] != NULL) && (spec[s_list[$k1]]->in == 1)), ite((ite(t1, 0.0, under(spec[s_list[$k1]]->lm)) > MIN_TOTAL), store(t3, t2 := !t1), t3), t3)); ite((ICON == 1), store(t4, [IC] := 1), t4)"),
+  ("LGAMMA[]", "t1 := [s_list[$k1]]; t2 := [pitz_params[param_list[$k1]]->ispec[0]]; t3 := sel($prev1{LGAMMA[]}, t2); t4 := ((spec[s_list[$k1]] != NULL) && (spec[s_list[$k1]]->in == 1)); t5 := store($prev1{M[]}, t1 := 0.0); t6 := (((spec[s_list[$k1]]->type == 5) || (spec[s_list[$k1]]->type == 6)) || (spec[s_list[$k1]]->type == 7)); t7 := ite(t6, 0.0, under(spec[s_list[$k1]]->lm)); t8 := fold($k1 from 0 ++ while ($k1 < size(s_list)); init M[]; step ite(t4, store(t5, t1 := t7), t5)); t9 := [pitz_params[param_list[$k1]]->ispec[1]]; t10 := ((sel(t8, t9) * 2.0) * pitz_params[param_list[$k1]]->p); t11 := store($prev1{LGAMMA[]}, t2 := (t3 + t10)); t12 := ((sel(t8, t2) * 2.0) * pitz_params[param_list[$k1]]->p); t13 := (pitz_params[param_list[$k1]]->p != 0.0); t14 := (pitz_params[param_list[$k1]]->alpha * sqrt(mu_x)); t15 := store($prev1{LGAMMA[]}, t2 := (t3 + (t10 * G(t14)))); t16 := ite(t13, store(t15, t9 := (sel(t15, t9) + (t12 * G(t14)))), $prev1{LGAMMA[]}); t17 := fold($k1 from 0 ++ while ($k1 < size(s_list)); init 0.0; step ($prev1{XX} + (sel(t8, t1) * fabs(spec[s_list[$k1]]->z)))); t18 := (2.0 * sqrt(fabs((spec[pitz_params[param_list[$k1]]->ispec[0]]->z * spec[pitz_params[param_list[$k1]]->ispec[1]]->z)))); t19 := store($prev1{LGAMMA[]}, t2 := (t3 + (((sel(t8, t9) * t17) * pitz_params[param_list[$k1]]->p) / t18))); t20 := store($prev1{IPRSNT[]}, t1 := 0); t21 := fold($k1 from 0 ++ while ($k1 < size(s_list)); init IPRSNT[]; step ite(t4, ite((t7 > MIN_TOTAL), store(t20, t1 := !t6), t20), t20)); t22 := [pitz_params[param_list[$k1]]->ispec[2]]; t23 := (sel(ite((ICON == 1), store(t21, [IC] := 1), t21), t22) == 0); t24 := ((sel(t8, t9) * sel(t8, t22)) * pitz_params[param_list[$k1]]->p); t25 := store($prev1{LGAMMA[]}, t2 := ite(t23, t3, (t3 + t24))); t26 := ((sel(t8, t2) * sel(t8, t22)) * pitz_params[param_list[$k1]]->p); t27 := store(t25, t9 := ite(t23, sel(t25, t9), (sel(t25, t9) + t26))); t28 := sel(t27, t22); t29 := (sel(t8, t2) * sel(t8, t9)); t30 := (t29 * pitz_params[param_list[$k1]]->p); t31 := store(t27, t22 := ite(t23, t28, (t28 + t30))); t32 := (use_etheta == 1); t33 := (2.0 * sel(t8, t9)); t34 := store($prev1{LGAMMA[]}, t2 := (t3 + (t33 * pitz_params[param_list[$k1]]->thetas->etheta))); t35 := (2.0 * sel(t8, t2)); t36 := store($prev1{LGAMMA[]}, t2 := (t3 + ((sel(t8, t9) * pitz_params[param_list[$k1]]->p) * pitz_params[param_list[$k1]]->ln_coef[0]))); t37 := store($prev1{LGAMMA[]}, t2 := ite(t23, t3, (t3 + (t24 * pitz_params[param_list[$k1]]->ln_coef[0])))); t38 := store(t37, t9 := ite(t23, sel(t37, t9), (sel(t37, t9) + (t26 * pitz_params[param_list[$k1]]->ln_coef[1])))); t39 := sel(t38, t22); t40 := store($prev1{LGAMMA[]}, t2 := (t3 + (t33 * pitz_params[param_list[$k1]]->p))); t41 := [ion_list[$k1]]; t42 := fabs(spec[ion_list[$k1]]->z); t43 := (patm_x > 1.0); t44 := ((7e-05 + (1.93e-09 * pow((tk_x - 250.0), 2.0))) * patm_x); t45 := (1.2 - ite((t44 > 0.2), 0.2, t44)); t46 := (1.0 + (t45 * sqrt(mu_x))); t47 := (1.0 + (1.2 * sqrt(mu_x))); t48 := (-A0 * ((sqrt(mu_x) / t47) + ((2.0 * log(t47)) / 1.2))); t49 := ite(t43, ite((t45 != 0), (-A0 * ((sqrt(mu_x) / t46) + ((2.0 * log(t46)) / t45))), t48), t48); t50 := switch(pitz_params[param_list[$k1]]->type; TYPE_ETA -> !t23; TYPE_MU -> !t23; TYPE_PSI -> !t23; TYPE_ZETA -> !t23; else -> 1); t51 := ite(t13, ((t30 * GP(t14)) / mu_x), 0); t52 := switch(pitz_params[param_list[$k1]]->type; TYPE_B1 -> t51; TYPE_B2 -> t51; TYPE_ETHETA -> ite(t32, (t29 * pitz_params[param_list[$k1]]->thetas->ethetap), 0); else -> 0); t53 := ite((tk_x > 263.0), ((9.65e-10 * pow((tk_x - 263.0), 2.773)) * pow(patm_x, 0.623)), t44); t54 := (1.2 - ite((t53 > 0.2), 0.2, t53)); t55 := (1.0 + (t54 * sqrt(mu_x))); t56 := fold($k1 from 0 ++ while ($k1 < size(ion_list)); init fold($k1 from 0 ++ while ($k1 < size(param_list)); init fold($k1 from 0 ++ while ($k1 < size(s_list)); init LGAMMA[]; step store($prev1{LGAMMA[]}, t1 := 0.0)); step switch(pitz_params[param_list[$k1]]->type; TYPE_B0 -> store(t11, t9 := (sel(t11, t9) + t12)); TYPE_B1 -> t16; TYPE_B2 -> t16; TYPE_C0 -> store(t19, t9 := (sel(t19, t9) + (((sel(t8, t2) * t17) * pitz_params[param_list[$k1]]->p) / t18))); TYPE_ETA -> t31; TYPE_ETHETA -> ite(t32, store(t34, t9 := (sel(t34, t9) + (t35 * pitz_params[param_list[$k1]]->thetas->etheta))), $prev1{LGAMMA[]}); TYPE_LAMBDA -> store(t36, t9 := (sel(t36, t9) + ((sel(t8, t2) * pitz_params[param_list[$k1]]->p) * pitz_params[param_list[$k1]]->ln_coef[1]))); TYPE_MU -> store(t38, t22 := ite(t23, t39, (t39 + (t30 * pitz_params[param_list[$k1]]->ln_coef[2])))); TYPE_PSI -> t31; TYPE_THETA -> store(t40, t9 := (sel(t40, t9) + (t35 * pitz_params[param_list[$k1]]->p))); TYPE_ZETA -> t31; else -> $prev1{LGAMMA[]})); step store($prev1{LGAMMA[]}, t41 := (sel($prev1{LGAMMA[]}, t41) + (((t42 * t42) * ite((t42 == 1), fold($k1 from 0 ++ while ($k1 < size(param_list)); init t49; step ite(t50, ($prev1{F1} + t52), $prev1{F1})), ite((t42 == 2.0), fold($k1 from 0 ++ while ($k1 < size(param_list)); init ite(t43, ite((t54 != 0), (-A0 * ((sqrt(mu_x) / t55) + ((2.0 * log(t55)) / t54))), t48), t48); step ite(t50, ($prev1{F2} + t52), $prev1{F2})), fold($k1 from 0 ++ while ($k1 < size(param_list)); init t48; step ite(t50, ($prev1{F} + t52), $prev1{F}))))) + (t42 * fold($k1 from 0 ++ while ($k1 < size(param_list)); init 0.0; step switch(pitz_params[param_list[$k1]]->type; TYPE_C0 -> ($prev1{CSUM} + (t30 / t18)); else -> $prev1{CSUM}))))))); t57 := ite((mcb0 != NULL), (t49 + ((mu_x * 2.0) * mcb0->p)), t49); t58 := (2.0 * sqrt(mu_x)); t59 := ite((mcb1 != NULL), (t57 + (((mu_x * 2.0) * mcb1->p) * ((1.0 - (((1.0 + t58) - ((t58 * t58) * 0.5)) * exp(-t58))) / (t58 * t58)))), t57); ite((ICON == 1), fold($k1 from 0 ++ while ($k1 < size(s_list)); init t56; step store($prev1{LGAMMA[]}, t1 := (sel($prev1{LGAMMA[]}, t1) + (spec[s_list[$k1]]->z * (sel(t56, [IC]) - ite((mcc0 != NULL), (t59 + (((1.5 * mcc0->p) * mu_x) * mu_x)), t59)))))), t56)"),
+  ("M[]", "t1 := [s_list[$k1]]; t2 := store($prev1{M[]}, t1 := 0.0); fold($k1 from 0 ++ while ($k1 < size(s_list)); init M[]; step ite(((spec[s_list[$k1]] != NULL) && (spec[s_list[$k1]]->in == 1)), store(t2, t1 := ite((((spec[s_list[$k1]]->type == 5) || (spec[s_list[$k1]]->type == 6)) || (spec[s_list[$k1]]->type == 7)), 0.0, under(spec[s_list[$k1]]->lm))), t2))"),
+  ("spec[]->lg_pitzer", "t1 := [s_list[$k1]]; t2 := [pitz_params[param_list[$k1]]->ispec[0]]; t3 := sel($prev1{LGAMMA[]}, t2); t4 := ((spec[s_list[$k1]] != NULL) && (spec[s_list[$k1]]->in == 1)); t5 := store($prev1{M[]}, t1 := 0.0); t6 := (((spec[s_list[$k1]]->type == 5) || (spec[s_list[$k1]]->type == 6)) || (spec[s_list[$k1]]->type == 7)); t7 := ite(t6, 0.0, under(spec[s_list[$k1]]->lm)); t8 := fold($k1 from 0 ++ while ($k1 < size(s_list)); init M[]; step ite(t4, store(t5, t1 := t7), t5)); t9 := [pitz_params[param_list[$k1]]->ispec[1]]; t10 := ((sel(t8, t9) * 2.0) * pitz_params[param_list[$k1]]->p); t11 := store($prev1{LGAMMA[]}, t2 := (t3 + t10)); t12 := ((sel(t8, t2) * 2.0) * pitz_params[param_list[$k1]]->p); t13 := (pitz_params[param_list[$k1]]->p != 0.0); t14 := (pitz_params[param_list[$k1]]->alpha * sqrt(mu_x)); t15 := store($prev1{LGAMMA[]}, t2 := (t3 + (t10 * G(t14)))); t16 := ite(t13, store(t15, t9 := (sel(t15, t9) + (t12 * G(t14)))), $prev1{LGAMMA[]}); t17 := fold($k1 from 0 ++ while ($k1 < size(s_list)); init 0.0; step ($prev1{XX} + (sel(t8, t1) * fabs(spec[s_list[$k1]]->z)))); t18 := (2.0 * sqrt(fabs((spec[pitz_params[param_list[$k1]]->ispec[0]]->z * spec[pitz_params[param_list[$k1]]->ispec[1]]->z)))); t19 := store($prev1{LGAMMA[]}, t2 := (t3 + (((sel(t8, t9) * t17) * pitz_params[param_list[$k1]]->p) / t18))); t20 := store($prev1{IPRSNT[]}, t1 := 0); t21 := fold($k1 from 0 ++ while ($k1 < size(s_list)); init IPRSNT[]; step ite(t4, ite((t7 > MIN_TOTAL), store(t20, t1 := !t6), t20), t20)); t22 := [pitz_params[param_list[$k1]]->ispec[2]]; t23 := (sel(ite((ICON == 1), store(t21, [IC] := 1), t21), t22) == 0); t24 := ((sel(t8, t9) * sel(t8, t22)) * pitz_params[param_list[$k1]]->p); t25 := store($prev1{LGAMMA[]}, t2 := ite(t23, t3, (t3 + t24))); t26 := ((sel(t8, t2) * sel(t8, t22)) * pitz_params[param_list[$k1]]->p); t27 := store(t25, t9 := ite(t23, sel(t25, t9), (sel(t25, t9) + t26))); t28 := sel(t27, t22); t29 := (sel(t8, t2) * sel(t8, t9)); t30 := (t29 * pitz_params[param_list[$k1]]->p); t31 := store(t27, t22 := ite(t23, t28, (t28 + t30))); t32 := (use_etheta == 1); t33 := (2.0 * sel(t8, t9)); t34 := store($prev1{LGAMMA[]}, t2 := (t3 + (t33 * pitz_params[param_list[$k1]]->thetas->etheta))); t35 := (2.0 * sel(t8, t2)); t36 := store($prev1{LGAMMA[]}, t2 := (t3 + ((sel(t8, t9) * pitz_params[param_list[$k1]]->p) * pitz_params[param_list[$k1]]->ln_coef[0]))); t37 := store($prev1{LGAMMA[]}, t2 := ite(t23, t3, (t3 + (t24 * pitz_params[param_list[$k1]]->ln_coef[0])))); t38 := store(t37, t9 := ite(t23, sel(t37, t9), (sel(t37, t9) + (t26 * pitz_params[param_list[$k1]]->ln_coef[1])))); t39 := sel(t38, t22); t40 := store($prev1{LGAMMA[]}, t2 := (t3 + (t33 * pitz_params[param_list[$k1]]->p))); t41 := [ion_list[$k1]]; t42 := fabs(spec[ion_list[$k1]]->z); t43 := (patm_x > 1.0); t44 := ((7e-05 + (1.93e-09 * pow((tk_x - 250.0), 2.0))) * patm_x); t45 := (1.2 - ite((t44 > 0.2), 0.2, t44)); t46 := (1.0 + (t45 * sqrt(mu_x))); t47 := (1.0 + (1.2 * sqrt(mu_x))); t48 := (-A0 * ((sqrt(mu_x) / t47) + ((2.0 * log(t47)) / 1.2))); t49 := ite(t43, ite((t45 != 0), (-A0 * ((sqrt(mu_x) / t46) + ((2.0 * log(t46)) / t45))), t48), t48); t50 := switch(pitz_params[param_list[$k1]]->type; TYPE_ETA -> !t23; TYPE_MU -> !t23; TYPE_PSI -> !t23; TYPE_ZETA -> !t23; else -> 1); t51 := ite(t13, ((t30 * GP(t14)) / mu_x), 0); t52 := switch(pitz_params[param_list[$k1]]->type; TYPE_B1 -> t51; TYPE_B2 -> t51; TYPE_ETHETA -> ite(t32, (t29 * pitz_params[param_list[$k1]]->thetas->ethetap), 0); else -> 0); t53 := ite((tk_x > 263.0), ((9.65e-10 * pow((tk_x - 263.0), 2.773)) * pow(patm_x, 0.623)), t44); t54 := (1.2 - ite((t53 > 0.2), 0.2, t53)); t55 := (1.0 + (t54 * sqrt(mu_x))); t56 := fold($k1 from 0 ++ while ($k1 < size(ion_list)); init fold($k1 from 0 ++ while ($k1 < size(param_list)); init fold($k1 from 0 ++ while ($k1 < size(s_list)); init LGAMMA[]; step store($prev1{LGAMMA[]}, t1 := 0.0)); step switch(pitz_params[param_list[$k1]]->type; TYPE_B0 -> store(t11, t9 := (sel(t11, t9) + t12)); TYPE_B1 -> t16; TYPE_B2 -> t16; TYPE_C0 -> store(t19, t9 := (sel(t19, t9) + (((sel(t8, t2) * t17) * pitz_params[param_list[$k1]]->p) / t18))); TYPE_ETA -> t31; TYPE_ETHETA -> ite(t32, store(t34, t9 := (sel(t34, t9) + (t35 * pitz_params[param_list[$k1]]->thetas->etheta))), $prev1{LGAMMA[]}); TYPE_LAMBDA -> store(t36, t9 := (sel(t36, t9) + ((sel(t8, t2) * pitz_params[param_list[$k1]]->p) * pitz_params[param_list[$k1]]->ln_coef[1]))); TYPE_MU -> store(t38, t22 := ite(t23, t39, (t39 + (t30 * pitz_params[param_list[$k1]]->ln_coef[2])))); TYPE_PSI -> t31; TYPE_THETA -> store(t40, t9 := (sel(t40, t9) + (t35 * pitz_params[param_list[$k1]]->p))); TYPE_ZETA -> t31; else -> $prev1{LGAMMA[]})); step store($prev1{LGAMMA[]}, t41 := (sel($prev1{LGAMMA[]}, t41) + (((t42 * t42) * ite((t42 == 1), fold($k1 from 0 ++ while ($k1 < size(param_list)); init t49; step ite(t50, ($prev1{F1} + t52), $prev1{F1})), ite((t42 == 2.0), fold($k1 from 0 ++ while ($k1 < size(param_list)); init ite(t43, ite((t54 != 0), (-A0 * ((sqrt(mu_x) / t55) + ((2.0 * log(t55)) / t54))), t48), t48); step ite(t50, ($prev1{F2} + t52), $prev1{F2})), fold($k1 from 0 ++ while ($k1 < size(param_list)); init t48; step ite(t50, ($prev1{F} + t52), $prev1{F}))))) + (t42 * fold($k1 from 0 ++ while ($k1 < size(param_list)); init 0.0; step switch(pitz_params[param_list[$k1]]->type; TYPE_C0 -> ($prev1{CSUM} + (t30 / t18)); else -> $prev1{CSUM}))))))); t57 := ite((mcb0 != NULL), (t49 + ((mu_x * 2.0) * mcb0->p)), t49); t58 := (2.0 * sqrt(mu_x)); t59 := ite((mcb1 != NULL), (t57 + (((mu_x * 2.0) * mcb1->p) * ((1.0 - (((1.0 + t58) - ((t58 * t58) * 0.5)) * exp(-t58))) / (t58 * t58)))), t57); fold($k1 from 0 ++ while ($k1 < size(s_list)); init spec[]->lg_pitzer; step store($prev1{spec[]->lg_pitzer}, t1 := (sel(ite((ICON == 1), fold($k1 from 0 ++ while ($k1 < size(s_list)); init t56; step store($prev1{LGAMMA[]}, t1 := (sel($prev1{LGAMMA[]}, t1) + (spec[s_list[$k1]]->z * (sel(t56, [IC]) - ite((mcc0 != NULL), (t59 + (((1.5 * mcc0->p) * mu_x) * mu_x)), t59)))))), t56), t1) * (1.0 / LOG_10))))"),
+  ("theta_params[]->etheta", "ite((use_etheta == 1), fold($k1 from 0 ++ while ($k1 < size(theta_params)); init theta_params[]->etheta; step store($prev1{theta_params[]->etheta}, [$k1] := ETHETAS#out3(theta_params[$k1]->zj, theta_params[$k1]->zk, mu_x))), theta_params[]->etheta)"),
+  ("theta_params[]->ethetap", "ite((use_etheta == 1), fold($k1 from 0 ++ while ($k1 < size(theta_params)); init theta_params[]->ethetap; step store($prev1{theta_params[]->ethetap}, [$k1] := ETHETAS#out4(theta_params[$k1]->zj, theta_params[$k1]->zk, mu_x))), theta_params[]->ethetap)")
 ] := rfl
 
 /-- `G` — `Pitzer.G` -/
-theorem gStmts_as_modelled : gStmts = [
-  "if(L_Y!=0.0){d=2.0e0*(1.0e0-(1.0e0+L_Y)*exp(-L_Y))/(L_Y*L_Y)"
+theorem gNF_as_modelled : gNF = [
+  ("$ret", "ite((L_Y != 0.0), ((2.0 * (1.0 - ((1.0 + L_Y) * exp(-L_Y)))) / (L_Y * L_Y)), 0.0)")
 ] := rfl
 
 /-- `GP` — `Pitzer.GP` -/
-theorem gpStmts_as_modelled : gpStmts = [
-  "if(L_Y!=0.0){d=-2.0e0*(1.0e0-(1.0e0+L_Y+L_Y*L_Y/2.0e0)*exp(-L_Y))/(L_Y*L_Y)"
+theorem gpNF_as_modelled : gpNF = [
+  ("$ret", "ite((L_Y != 0.0), ((-2.0 * (1.0 - (((1.0 + L_Y) + ((L_Y * L_Y) / 2.0)) * exp(-L_Y)))) / (L_Y * L_Y)), 0.0)")
 ] := rfl
 
-/-- `ETHETAS` — the `etheta`/`ethetap` pair (`IRel`: `ethetap` is d(etheta)/dI) -/
-theorem ethetasStmts_as_modelled : ethetasStmts = [
-  "*etheta=0.0",
-  "*ethetap=0.0",
-  "constLDBLEXCON=6.0e0*A0*sqrt(I)",
-  "constLDBLEXJK=XCON*ZZ",
-  "constLDBLEXJJ=XCON*ZJ*ZJ",
-  "constLDBLEXKK=XCON*ZK*ZK",
-  "*etheta=ZZ*(JAY_XJK-JAY_XJJ/2.0e0-JAY_XKK/2.0e0)/(4.0e0*I)",
-  "*ethetap=ZZ*(JPRIME_XJK-JPRIME_XJJ/2.0e0-JPRIME_XKK/2.0e0)/(8.0e0*I*I)-*etheta/I"
+/-- `ETHETAS` — how `etheta` / `ethetap` are formed from J, J′ (`IRel`: `ethetap` is d(etheta)/dI) -/
+theorem ethetasNF_as_modelled : ethetasNF = [
+  ("$ret", "1"),
+  ("*etheta", "ite((ZJ == ZK), 0.0, (((ZJ * ZK) * ((JAY_XJK - (JAY_XJJ / 2.0)) - (JAY_XKK / 2.0))) / (4.0 * I)))"),
+  ("*ethetap", "ite((ZJ == ZK), 0.0, ((((ZJ * ZK) * ((JPRIME_XJK - (JPRIME_XJJ / 2.0)) - (JPRIME_XKK / 2.0))) / ((8.0 * I) * I)) - (ite((ZJ == ZK), 0.0, (((ZJ * ZK) * ((JAY_XJK - (JAY_XJJ / 2.0)) - (JAY_XKK / 2.0))) / (4.0 * I))) / I)))")
 ] := rfl
 
 /-- `calc_pitz_param` — `Pitzer.calcParam` -/
-theorem calcParamStmts_as_modelled : calcParamStmts = [
-  "if(fabs(TK-TR)<0.001){param=pz_ptr->a[0]",
-  "}else{param=(pz_ptr->a[0]+pz_ptr->a[1]*(1.e0/TK-1.e0/TR)+pz_ptr->a[2]*log(TK/TR)+pz_ptr->a[3]*(TK-TR)+pz_ptr->a[4]*(TK*TK-TR*TR))+pz_ptr->a[5]*(1.e0/(TK*TK)-1.e0/(TR*TR))"
-] := rfl
-
-/-- `pitzer_tidy` — `lambdaCoefs`, `muLn`, `muOs`, alpha defaults -/
-theorem tidyStmts_as_modelled : tidyStmts = [
-  "if(equal(z0,1.0,1e-8)||equal(z1,1.0,1e-8)){order=1",
-  "}elseif(equal(z0,2.0,1e-8)&&equal(z1,2.0,1e-8)){order=2",
-  "}else{order=3",
-  "}if(pitz_params[i]->type==TYPE_B1){switch(order){case1:case3:pitz_params[i]->alpha=2.0",
-  "case2:pitz_params[i]->alpha=1.4",
-  "}}elseif(pitz_params[i]->type==TYPE_B2){switch(order){case1:pitz_params[i]->alpha=12.0",
-  "case2:pitz_params[i]->alpha=12.0",
-  "case3:pitz_params[i]->alpha=50.0",
-  "pitz_params[j]->alpha=pitz_params[i]->a[0]",
-  "pitz_params[j]->alpha=pitz_params[i]->a[1]",
-  "}if(spec[pitz_params[i]->ispec[j]]->z<0){}}if(count_neut==3){if(i0==i1&&i1==i2){pitz_params[i]->os_coef=1",
-  "}elseif(i0==i1||i1==i2||i0==i2){pitz_params[i]->os_coef=3",
-  "}else{pitz_params[i]->os_coef=6",
-  "}}if(i0==i1||i1==i2||i0==i2){pitz_params[i]->os_coef=3",
-  "}else{pitz_params[i]->os_coef=6",
-  "j++){if(spec[pitz_params[i]->ispec[j]]->z<0||spec[pitz_params[i]->ispec[j]]->z>0){if(count[0]>1||count[1]>1){pitz_params[i]->ln_coef[j]=3",
-  "}else{pitz_params[i]->ln_coef[j]=6",
-  "}if(count[j]==3){pitz_params[i]->ln_coef[j]=1",
-  "}elseif(count[j]==2){pitz_params[i]->ln_coef[j]=3",
-  "}elseif(count[j]==1){if(count[0]>1||count[1]>1){pitz_params[i]->ln_coef[j]=3",
-  "}else{pitz_params[i]->ln_coef[j]=6",
-  "if(i0==i1){pitz_params[i]->os_coef=0.5",
-  "pitz_params[i]->ln_coef[0]=1",
-  "pitz_params[i]->ln_coef[1]=1",
-  "}else{pitz_params[i]->os_coef=1",
-  "pitz_params[i]->ln_coef[0]=2",
-  "pitz_params[i]->ln_coef[1]=2"
+theorem calcParamNF_as_modelled : calcParamNF = [
+  ("pz_ptr->p", "ite((fabs((TK - TR)) < 0.001), pz_ptr->a[0], (((((pz_ptr->a[0] + (pz_ptr->a[1] * ((1.0 / TK) - (1.0 / TR)))) + (pz_ptr->a[2] * log((TK / TR)))) + (pz_ptr->a[3] * (TK - TR))) + (pz_ptr->a[4] * ((TK * TK) - (TR * TR)))) + (pz_ptr->a[5] * ((1.0 / (TK * TK)) - (1.0 / (TR * TR))))))")
 ] := rfl
 
 /-- `sit()` — `Pitzer.sit`, `sitTerms`, `sitOs` -/
-theorem sitStmts_as_modelled : sitStmts = [
-  "XI=0.0e0",
-  "XX=0.0e0",
-  "OSUM=0.0e0",
-  "I=mu_x",
-  "if(spec[i]->lm>log_min){sit_M[i]=under(spec[i]->lm)",
-  "}else{sit_M[i]=0.0",
-  "sit_LGAMMA[i]=0.0",
-  "XX=XX+sit_M[i]*fabs(spec[i]->z)",
-  "XI=XI+sit_M[i]*spec[i]->z*spec[i]->z",
-  "OSUM=OSUM+sit_M[i]",
-  "}I=XI/2.0e0",
-  "I=mu_x",
-  "DI=sqrt(I)",
-  "AGAMMA=3*sit_A0",
-  "A=AGAMMA/LOG_10",
-  "B=1.5",
-  "F=-A*(DI/(1.0e0+B*DI))",
-  "T=1.0+B*DI",
-  "OSMOT=-2.0*A/(B*B*B)*(T-2.0*log(T)-1.0/T)",
-  "switch(sit_params[i]->type){caseTYPE_SIT_EPSILON:sit_LGAMMA[i0]+=sit_M[i1]*param",
-  "sit_LGAMMA[i1]+=sit_M[i0]*param",
-  "if(z0==0.0&&z1==0.0){OSMOT+=sit_M[i0]*sit_M[i1]*param/2.0",
-  "}else{OSMOT+=sit_M[i0]*sit_M[i1]*param",
-  "caseTYPE_SIT_EPSILON_MU:sit_LGAMMA[i0]+=sit_M[i1]*I*param",
-  "sit_LGAMMA[i1]+=sit_M[i0]*I*param",
-  "OSMOT+=sit_M[i0]*sit_M[i1]*param",
-  "if(z0==0.0&&z1==0.0){OSMOT+=sit_M[i0]*sit_M[i1]*param*I/2.0",
-  "}else{OSMOT+=sit_M[i0]*sit_M[i1]*param*I",
-  "sit_LGAMMA[i]+=z0*z0*F",
-  "}COSMOT=1.0e0+OSMOT*LOG_10/OSUM",
-  "AW=exp(-OSUM*COSMOT/55.50837e0)",
-  "spec[i]->lg_pitzer=sit_LGAMMA[i]"
+theorem sitNF_as_modelled : sitNF = [
+  ("$ret", "1"),
+  ("AW", "t1 := [s_list[$k1]]; t2 := fold($k1 from 0 ++ while ($k1 < size(s_list)); init sit_M[]; step ite((spec[s_list[$k1]]->lm > log10(MIN_TOTAL)), store($prev1{sit_M[]}, t1 := under(spec[s_list[$k1]]->lm)), store($prev1{sit_M[]}, t1 := 0.0))); t3 := fold($k1 from 0 ++ while ($k1 < size(s_list)); init 0.0; step ($prev1{OSUM} + sel(t2, t1))); t4 := (1.0 + (1.5 * sqrt(mu_x))); t5 := ((spec[sit_params[param_list[$k1]]->ispec[0]]->z == 0.0) && (spec[sit_params[param_list[$k1]]->ispec[1]]->z == 0.0)); t6 := ((sel(t2, [sit_params[param_list[$k1]]->ispec[0]]) * sel(t2, [sit_params[param_list[$k1]]->ispec[1]])) * sit_params[param_list[$k1]]->p); t7 := ($prev1{OSMOT} + t6); exp(((-t3 * (1.0 + ((fold($k1 from 0 ++ while ($k1 < size(param_list)); init (((-2.0 * ((3 * sit_A0) / LOG_10)) / ((1.5 * 1.5) * 1.5)) * ((t4 - (2.0 * log(t4))) - (1.0 / t4))); step switch(sit_params[param_list[$k1]]->type; TYPE_SIT_EPSILON -> ite(t5, ($prev1{OSMOT} + (t6 / 2.0)), t7); TYPE_SIT_EPSILON_MU -> ite(t5, (t7 + ((t6 * mu_x) / 2.0)), (t7 + (t6 * mu_x))); else -> $prev1{OSMOT})) * LOG_10) / t3))) / 55.50837))"),
+  ("COSMOT", "t1 := (1.0 + (1.5 * sqrt(mu_x))); t2 := ((spec[sit_params[param_list[$k1]]->ispec[0]]->z == 0.0) && (spec[sit_params[param_list[$k1]]->ispec[1]]->z == 0.0)); t3 := [s_list[$k1]]; t4 := fold($k1 from 0 ++ while ($k1 < size(s_list)); init sit_M[]; step ite((spec[s_list[$k1]]->lm > log10(MIN_TOTAL)), store($prev1{sit_M[]}, t3 := under(spec[s_list[$k1]]->lm)), store($prev1{sit_M[]}, t3 := 0.0))); t5 := ((sel(t4, [sit_params[param_list[$k1]]->ispec[0]]) * sel(t4, [sit_params[param_list[$k1]]->ispec[1]])) * sit_params[param_list[$k1]]->p); t6 := ($prev1{OSMOT} + t5); (1.0 + ((fold($k1 from 0 ++ while ($k1 < size(param_list)); init (((-2.0 * ((3 * sit_A0) / LOG_10)) / ((1.5 * 1.5) * 1.5)) * ((t1 - (2.0 * log(t1))) - (1.0 / t1))); step switch(sit_params[param_list[$k1]]->type; TYPE_SIT_EPSILON -> ite(t2, ($prev1{OSMOT} + (t5 / 2.0)), t6); TYPE_SIT_EPSILON_MU -> ite(t2, (t6 + ((t5 * mu_x) / 2.0)), (t6 + (t5 * mu_x))); else -> $prev1{OSMOT})) * LOG_10) / fold($k1 from 0 ++ while ($k1 < size(s_list)); init 0.0; step ($prev1{OSUM} + sel(t4, t3)))))"),
+  ("sit_LGAMMA[]", "t1 := [s_list[$k1]]; t2 := [sit_params[param_list[$k1]]->ispec[0]]; t3 := sel($prev1{sit_LGAMMA[]}, t2); t4 := fold($k1 from 0 ++ while ($k1 < size(s_list)); init sit_M[]; step ite((spec[s_list[$k1]]->lm > log10(MIN_TOTAL)), store($prev1{sit_M[]}, t1 := under(spec[s_list[$k1]]->lm)), store($prev1{sit_M[]}, t1 := 0.0))); t5 := [sit_params[param_list[$k1]]->ispec[1]]; t6 := store($prev1{sit_LGAMMA[]}, t2 := (t3 + (sel(t4, t5) * sit_params[param_list[$k1]]->p))); t7 := store($prev1{sit_LGAMMA[]}, t2 := (t3 + ((sel(t4, t5) * mu_x) * sit_params[param_list[$k1]]->p))); t8 := [ion_list[$k1]]; fold($k1 from 0 ++ while ($k1 < size(ion_list)); init fold($k1 from 0 ++ while ($k1 < size(param_list)); init fold($k1 from 0 ++ while ($k1 < size(s_list)); init sit_LGAMMA[]; step store($prev1{sit_LGAMMA[]}, t1 := 0.0)); step switch(sit_params[param_list[$k1]]->type; TYPE_SIT_EPSILON -> store(t6, t5 := (sel(t6, t5) + (sel(t4, t2) * sit_params[param_list[$k1]]->p))); TYPE_SIT_EPSILON_MU -> store(t7, t5 := (sel(t7, t5) + ((sel(t4, t2) * mu_x) * sit_params[param_list[$k1]]->p))); else -> $prev1{sit_LGAMMA[]})); step store($prev1{sit_LGAMMA[]}, t8 := (sel($prev1{sit_LGAMMA[]}, t8) + ((spec[ion_list[$k1]]->z * spec[ion_list[$k1]]->z) * (-((3 * sit_A0) / LOG_10) * (sqrt(mu_x) / (1.0 + (1.5 * sqrt(mu_x)))))))))"),
+  ("sit_M[]", "t1 := [s_list[$k1]]; fold($k1 from 0 ++ while ($k1 < size(s_list)); init sit_M[]; step ite((spec[s_list[$k1]]->lm > log10(MIN_TOTAL)), store($prev1{sit_M[]}, t1 := under(spec[s_list[$k1]]->lm)), store($prev1{sit_M[]}, t1 := 0.0)))"),
+  ("spec[]->lg_pitzer", "t1 := [s_list[$k1]]; t2 := [sit_params[param_list[$k1]]->ispec[0]]; t3 := sel($prev1{sit_LGAMMA[]}, t2); t4 := fold($k1 from 0 ++ while ($k1 < size(s_list)); init sit_M[]; step ite((spec[s_list[$k1]]->lm > log10(MIN_TOTAL)), store($prev1{sit_M[]}, t1 := under(spec[s_list[$k1]]->lm)), store($prev1{sit_M[]}, t1 := 0.0))); t5 := [sit_params[param_list[$k1]]->ispec[1]]; t6 := store($prev1{sit_LGAMMA[]}, t2 := (t3 + (sel(t4, t5) * sit_params[param_list[$k1]]->p))); t7 := store($prev1{sit_LGAMMA[]}, t2 := (t3 + ((sel(t4, t5) * mu_x) * sit_params[param_list[$k1]]->p))); t8 := [ion_list[$k1]]; fold($k1 from 0 ++ while ($k1 < size(s_list)); init spec[]->lg_pitzer; step store($prev1{spec[]->lg_pitzer}, t1 := sel(fold($k1 from 0 ++ while ($k1 < size(ion_list)); init fold($k1 from 0 ++ while ($k1 < size(param_list)); init fold($k1 from 0 ++ while ($k1 < size(s_list)); init sit_LGAMMA[]; step store($prev1{sit_LGAMMA[]}, t1 := 0.0)); step switch(sit_params[param_list[$k1]]->type; TYPE_SIT_EPSILON -> store(t6, t5 := (sel(t6, t5) + (sel(t4, t2) * sit_params[param_list[$k1]]->p))); TYPE_SIT_EPSILON_MU -> store(t7, t5 := (sel(t7, t5) + ((sel(t4, t2) * mu_x) * sit_params[param_list[$k1]]->p))); else -> $prev1{sit_LGAMMA[]})); step store($prev1{sit_LGAMMA[]}, t8 := (sel($prev1{sit_LGAMMA[]}, t8) + ((spec[ion_list[$k1]]->z * spec[ion_list[$k1]]->z) * (-((3 * sit_A0) / LOG_10) * (sqrt(mu_x) / (1.0 + (1.5 * sqrt(mu_x))))))))), t1)))")
 ] := rfl
 
 /-- `calc_sit_param` — `Pitzer.calcSitParam` -/
-theorem calcSitParamStmts_as_modelled : calcSitParamStmts = [
-  "if(fabs(TK-TR)<0.01){param=pz_ptr->a[0]",
-  "}else{param=(pz_ptr->a[0]+pz_ptr->a[1]*(1.e0/TK-1.e0/TR)+pz_ptr->a[2]*log(TK/TR)+pz_ptr->a[3]*(TK-TR)+pz_ptr->a[4]*(TK*TK-TR*TR))"
+theorem calcSitParamNF_as_modelled : calcSitParamNF = [
+  ("pz_ptr->p", "ite((fabs((TK - TR)) < 0.01), pz_ptr->a[0], ((((pz_ptr->a[0] + (pz_ptr->a[1] * ((1.0 / TK) - (1.0 / TR)))) + (pz_ptr->a[2] * log((TK / TR)))) + (pz_ptr->a[3] * (TK - TR))) + (pz_ptr->a[4] * ((TK * TK) - (TR * TR)))))")
 ] := rfl
 
-/-- `gammas()` aqueous branches — `Gamma.lgOf`, `davies`, `wateq`, `bdot`, `co2Poly`, `clampMu`, `searchGo`, `weight`, `blend` -/
-theorem gammasStmts_as_modelled : gammasStmts = [
-  "if(mu<=0)mu=1e-10",
-  "a_llnl=b_llnl=bdot_llnl=log_g_co2=dln_g_co2=c2_llnl=0",
-  "a=DH_A",
-  "b=DH_B",
-  "if(llnl_temp.size()>0){ifirst=0",
-  "ilast=(int)llnl_temp.size()",
-  "i++){if(tc_x>=llnl_temp[i])ifirst=i",
-  "if(tc_x<=llnl_temp[i]){ilast=i",
-  "}}if(ilast==ifirst){f=1",
-  "}else{f=(tc_x-llnl_temp[ifirst])/(llnl_temp[ilast]-llnl_temp[ifirst])",
-  "}a_llnl=(1-f)*llnl_adh[ifirst]+f*llnl_adh[ilast]",
-  "b_llnl=(1-f)*llnl_bdh[ifirst]+f*llnl_bdh[ilast]",
-  "bdot_llnl=(1-f)*llnl_bdot[ifirst]+f*llnl_bdot[ilast]",
-  "log_g_co2=(llnl_co2_coefs[0]+llnl_co2_coefs[1]*tk_x+llnl_co2_coefs[2]/tk_x)*mu-(llnl_co2_coefs[3]+llnl_co2_coefs[4]*tk_x)*(mu/(mu+1))",
-  "}muhalf=sqrt(mu)",
-  "i++){switch(s_x[i]->gflag){case0:s_x[i]->lg=s_x[i]->dhb*mu",
-  "case1:s_x[i]->lg=-s_x[i]->z*s_x[i]->z*a*(muhalf/(1.0+muhalf)-0.3*mu)",
-  "case2:s_x[i]->lg=-a*muhalf*s_x[i]->z*s_x[i]->z/(1.0+s_x[i]->dha*b*muhalf)+s_x[i]->dhb*mu",
-  "case3:s_x[i]->lg=0.0",
-  "case5:s_x[i]->lg=0.0",
-  "}else{s_x[i]->lg=0.0",
-  "case7:if(llnl_temp.size()>0){if(s_x[i]->z==0){s_x[i]->lg=0.0",
-  "}else{s_x[i]->lg=-a_llnl*muhalf*s_x[i]->z*s_x[i]->z/(1.0+s_x[i]->dha*b_llnl*muhalf)+bdot_llnl*mu",
-  "case8:if(llnl_temp.size()>0){s_x[i]->lg=log_g_co2",
-  "case9:s_x[i]->lg=log10(exp(s_h2o->la*LOG_10)*gfw_water)"
+/-- `gammas()`, aqueous branches and the LLNL block — `Gamma.lgOf`, `davies`, `wateq`, `bdot`, `co2Poly`, `clampMu`, `searchGo`, `weight`, `blend` -/
+theorem gammasNF_as_modelled : gammasNF = [
+  ("$ret", "t1 := (pitzer_model == 1); t2 := (sit_model == 1); ite((!t1 && !t2), 1, ite(t2, ite(t1, gammas_pz(1), gammas_sit()), ite(t1, gammas_pz(1), $noret)))"),
+  ("a_llnl", "t1 := size(llnl_temp); t2 := (!(pitzer_model == 1) && !(sit_model == 1)); t3 := (tc_x <= llnl_temp[$k1]); t4 := ite((ite(t2, fold($k1 from 0 ++ while ($k1 < size(llnl_temp)); init t1; step ite(t3, $k1, $prev1{ilast}); exit (t2 && t3)), t1) == ite(t2, fold($k1 from 0 ++ while ($k1 < size(llnl_temp)); init 0; step ite((tc_x >= llnl_temp[$k1]), $k1, $prev1{ifirst}); exit (t2 && t3)), 0)), 1, ((tc_x - llnl_temp[ite((!(pitzer_model == 1) && !(sit_model == 1)), fold($k1 from 0 ++ while ($k1 < size(llnl_temp)); init 0; step ite((tc_x >= llnl_temp[$k1]), $k1, $prev1{ifirst}); exit ((!(pitzer_model == 1) && !(sit_model == 1)) && (tc_x <= llnl_temp[$k1]))), 0)]) / (llnl_temp[ite((!(pitzer_model == 1) && !(sit_model == 1)), fold($k1 from 0 ++ while ($k1 < size(llnl_temp)); init size(llnl_temp); step ite((tc_x <= llnl_temp[$k1]), $k1, $prev1{ilast}); exit ((!(pitzer_model == 1) && !(sit_model == 1)) && (tc_x <= llnl_temp[$k1]))), size(llnl_temp))] - llnl_temp[ite((!(pitzer_model == 1) && !(sit_model == 1)), fold($k1 from 0 ++ while ($k1 < size(llnl_temp)); init 0; step ite((tc_x >= llnl_temp[$k1]), $k1, $prev1{ifirst}); exit ((!(pitzer_model == 1) && !(sit_model == 1)) && (tc_x <= llnl_temp[$k1]))), 0)]))); ite((t1 > 0), ite(t2, (((1 - t4) * llnl_adh[ite((!(pitzer_model == 1) && !(sit_model == 1)), fold($k1 from 0 ++ while ($k1 < size(llnl_temp)); init 0; step ite((tc_x >= llnl_temp[$k1]), $k1, $prev1{ifirst}); exit ((!(pitzer_model == 1) && !(sit_model == 1)) && (tc_x <= llnl_temp[$k1]))), 0)]) + (t4 * llnl_adh[ite((!(pitzer_model == 1) && !(sit_model == 1)), fold($k1 from 0 ++ while ($k1 < size(llnl_temp)); init size(llnl_temp); step ite((tc_x <= llnl_temp[$k1]), $k1, $prev1{ilast}); exit ((!(pitzer_model == 1) && !(sit_model == 1)) && (tc_x <= llnl_temp[$k1]))), size(llnl_temp))])), a_llnl), ite(t2, 0, a_llnl))"),
+  ("b_llnl", "t1 := size(llnl_temp); t2 := (!(pitzer_model == 1) && !(sit_model == 1)); t3 := (tc_x <= llnl_temp[$k1]); t4 := ite((ite(t2, fold($k1 from 0 ++ while ($k1 < size(llnl_temp)); init t1; step ite(t3, $k1, $prev1{ilast}); exit (t2 && t3)), t1) == ite(t2, fold($k1 from 0 ++ while ($k1 < size(llnl_temp)); init 0; step ite((tc_x >= llnl_temp[$k1]), $k1, $prev1{ifirst}); exit (t2 && t3)), 0)), 1, ((tc_x - llnl_temp[ite((!(pitzer_model == 1) && !(sit_model == 1)), fold($k1 from 0 ++ while ($k1 < size(llnl_temp)); init 0; step ite((tc_x >= llnl_temp[$k1]), $k1, $prev1{ifirst}); exit ((!(pitzer_model == 1) && !(sit_model == 1)) && (tc_x <= llnl_temp[$k1]))), 0)]) / (llnl_temp[ite((!(pitzer_model == 1) && !(sit_model == 1)), fold($k1 from 0 ++ while ($k1 < size(llnl_temp)); init size(llnl_temp); step ite((tc_x <= llnl_temp[$k1]), $k1, $prev1{ilast}); exit ((!(pitzer_model == 1) && !(sit_model == 1)) && (tc_x <= llnl_temp[$k1]))), size(llnl_temp))] - llnl_temp[ite((!(pitzer_model == 1) && !(sit_model == 1)), fold($k1 from 0 ++ while ($k1 < size(llnl_temp)); init 0; step ite((tc_x >= llnl_temp[$k1]), $k1, $prev1{ifirst}); exit ((!(pitzer_model == 1) && !(sit_model == 1)) && (tc_x <= llnl_temp[$k1]))), 0)]))); ite((t1 > 0), ite(t2, (((1 - t4) * llnl_bdh[ite((!(pitzer_model == 1) && !(sit_model == 1)), fold($k1 from 0 ++ while ($k1 < size(llnl_temp)); init 0; step ite((tc_x >= llnl_temp[$k1]), $k1, $prev1{ifirst}); exit ((!(pitzer_model == 1) && !(sit_model == 1)) && (tc_x <= llnl_temp[$k1]))), 0)]) + (t4 * llnl_bdh[ite((!(pitzer_model == 1) && !(sit_model == 1)), fold($k1 from 0 ++ while ($k1 < size(llnl_temp)); init size(llnl_temp); step ite((tc_x <= llnl_temp[$k1]), $k1, $prev1{ilast}); exit ((!(pitzer_model == 1) && !(sit_model == 1)) && (tc_x <= llnl_temp[$k1]))), size(llnl_temp))])), b_llnl), ite(t2, 0, b_llnl))"),
+  ("bdot_llnl", "t1 := size(llnl_temp); t2 := (!(pitzer_model == 1) && !(sit_model == 1)); t3 := (tc_x <= llnl_temp[$k1]); t4 := ite((ite(t2, fold($k1 from 0 ++ while ($k1 < size(llnl_temp)); init t1; step ite(t3, $k1, $prev1{ilast}); exit (t2 && t3)), t1) == ite(t2, fold($k1 from 0 ++ while ($k1 < size(llnl_temp)); init 0; step ite((tc_x >= llnl_temp[$k1]), $k1, $prev1{ifirst}); exit (t2 && t3)), 0)), 1, ((tc_x - llnl_temp[ite((!(pitzer_model == 1) && !(sit_model == 1)), fold($k1 from 0 ++ while ($k1 < size(llnl_temp)); init 0; step ite((tc_x >= llnl_temp[$k1]), $k1, $prev1{ifirst}); exit ((!(pitzer_model == 1) && !(sit_model == 1)) && (tc_x <= llnl_temp[$k1]))), 0)]) / (llnl_temp[ite((!(pitzer_model == 1) && !(sit_model == 1)), fold($k1 from 0 ++ while ($k1 < size(llnl_temp)); init size(llnl_temp); step ite((tc_x <= llnl_temp[$k1]), $k1, $prev1{ilast}); exit ((!(pitzer_model == 1) && !(sit_model == 1)) && (tc_x <= llnl_temp[$k1]))), size(llnl_temp))] - llnl_temp[ite((!(pitzer_model == 1) && !(sit_model == 1)), fold($k1 from 0 ++ while ($k1 < size(llnl_temp)); init 0; step ite((tc_x >= llnl_temp[$k1]), $k1, $prev1{ifirst}); exit ((!(pitzer_model == 1) && !(sit_model == 1)) && (tc_x <= llnl_temp[$k1]))), 0)]))); ite((t1 > 0), ite(t2, (((1 - t4) * llnl_bdot[ite((!(pitzer_model == 1) && !(sit_model == 1)), fold($k1 from 0 ++ while ($k1 < size(llnl_temp)); init 0; step ite((tc_x >= llnl_temp[$k1]), $k1, $prev1{ifirst}); exit ((!(pitzer_model == 1) && !(sit_model == 1)) && (tc_x <= llnl_temp[$k1]))), 0)]) + (t4 * llnl_bdot[ite((!(pitzer_model == 1) && !(sit_model == 1)), fold($k1 from 0 ++ while ($k1 < size(llnl_temp)); init size(llnl_temp); step ite((tc_x <= llnl_temp[$k1]), $k1, $prev1{ilast}); exit ((!(pitzer_model == 1) && !(sit_model == 1)) && (tc_x <= llnl_temp[$k1]))), size(llnl_temp))])), bdot_llnl), ite(t2, 0, bdot_llnl))"),
+  ("s_x[]->lg | gflag 0", "store($prev1{s_x[]->lg}, [$k1] := ite((!(pitzer_model == 1) && !(sit_model == 1)), (s_x[$k1]->dhb * ite((mu <= 0), 1e-10, mu)), sel($prev1{s_x[]->lg}, [$k1])))"),
+  ("s_x[]->lg | gflag 1", "t1 := ite((mu <= 0), 1e-10, mu); store($prev1{s_x[]->lg}, [$k1] := ite((!(pitzer_model == 1) && !(sit_model == 1)), (((-s_x[$k1]->z * s_x[$k1]->z) * DH_A) * ((sqrt(t1) / (1.0 + sqrt(t1))) - (0.3 * t1))), sel($prev1{s_x[]->lg}, [$k1])))"),
+  ("s_x[]->lg | gflag 2", "t1 := ite((mu <= 0), 1e-10, mu); store($prev1{s_x[]->lg}, [$k1] := ite((!(pitzer_model == 1) && !(sit_model == 1)), (((((-DH_A * sqrt(t1)) * s_x[$k1]->z) * s_x[$k1]->z) / (1.0 + ((s_x[$k1]->dha * DH_B) * sqrt(t1)))) + (s_x[$k1]->dhb * t1)), sel($prev1{s_x[]->lg}, [$k1])))"),
+  ("s_x[]->lg | gflag 3", "store($prev1{s_x[]->lg}, [$k1] := ite((!(pitzer_model == 1) && !(sit_model == 1)), 0.0, sel($prev1{s_x[]->lg}, [$k1])))"),
+  ("s_x[]->lg | gflag 5", "store($prev1{s_x[]->lg}, [$k1] := ite((!(pitzer_model == 1) && !(sit_model == 1)), 0.0, sel($prev1{s_x[]->lg}, [$k1])))"),
+  ("s_x[]->lg | gflag 7", "t1 := size(llnl_temp); t2 := (!(pitzer_model == 1) && !(sit_model == 1)); t3 := sel($prev1{s_x[]->lg}, [$k1]); t4 := (tc_x <= llnl_temp[$k1]); t5 := ite((ite(t2, fold($k1 from 0 ++ while ($k1 < size(llnl_temp)); init t1; step ite(t4, $k1, $prev1{ilast}); exit (t2 && t4)), t1) == ite(t2, fold($k1 from 0 ++ while ($k1 < size(llnl_temp)); init 0; step ite((tc_x >= llnl_temp[$k1]), $k1, $prev1{ifirst}); exit (t2 && t4)), 0)), 1, ((tc_x - llnl_temp[ite((!(pitzer_model == 1) && !(sit_model == 1)), fold($k1 from 0 ++ while ($k1 < size(llnl_temp)); init 0; step ite((tc_x >= llnl_temp[$k1]), $k1, $prev1{ifirst}); exit ((!(pitzer_model == 1) && !(sit_model == 1)) && (tc_x <= llnl_temp[$k1]))), 0)]) / (llnl_temp[ite((!(pitzer_model == 1) && !(sit_model == 1)), fold($k1 from 0 ++ while ($k1 < size(llnl_temp)); init size(llnl_temp); step ite((tc_x <= llnl_temp[$k1]), $k1, $prev1{ilast}); exit ((!(pitzer_model == 1) && !(sit_model == 1)) && (tc_x <= llnl_temp[$k1]))), size(llnl_temp))] - llnl_temp[ite((!(pitzer_model == 1) && !(sit_model == 1)), fold($k1 from 0 ++ while ($k1 < size(llnl_temp)); init 0; step ite((tc_x >= llnl_temp[$k1]), $k1, $prev1{ifirst}); exit ((!(pitzer_model == 1) && !(sit_model == 1)) && (tc_x <= llnl_temp[$k1]))), 0)]))); t6 := ite((mu <= 0), 1e-10, mu); ite((t1 > 0), ite((s_x[$k1]->z == 0), store($prev1{s_x[]->lg}, [$k1] := ite(t2, 0.0, t3)), store($prev1{s_x[]->lg}, [$k1] := ite(t2, (((((-ite((t1 > 0), ite(t2, (((1 - t5) * llnl_adh[ite((!(pitzer_model == 1) && !(sit_model == 1)), fold($k1 from 0 ++ while ($k1 < size(llnl_temp)); init 0; step ite((tc_x >= llnl_temp[$k1]), $k1, $prev1{ifirst}); exit ((!(pitzer_model == 1) && !(sit_model == 1)) && (tc_x <= llnl_temp[$k1]))), 0)]) + (t5 * llnl_adh[ite((!(pitzer_model == 1) && !(sit_model == 1)), fold($k1 from 0 ++ while ($k1 < size(llnl_temp)); init size(llnl_temp); step ite((tc_x <= llnl_temp[$k1]), $k1, $prev1{ilast}); exit ((!(pitzer_model == 1) && !(sit_model == 1)) && (tc_x <= llnl_temp[$k1]))), size(llnl_temp))])), a_llnl), ite(t2, 0, a_llnl)) * sqrt(t6)) * s_x[$k1]->z) * s_x[$k1]->z) / (1.0 + ((s_x[$k1]->dha * ite((t1 > 0), ite(t2, (((1 - t5) * llnl_bdh[ite((!(pitzer_model == 1) && !(sit_model == 1)), fold($k1 from 0 ++ while ($k1 < size(llnl_temp)); init 0; step ite((tc_x >= llnl_temp[$k1]), $k1, $prev1{ifirst}); exit ((!(pitzer_model == 1) && !(sit_model == 1)) && (tc_x <= llnl_temp[$k1]))), 0)]) + (t5 * llnl_bdh[ite((!(pitzer_model == 1) && !(sit_model == 1)), fold($k1 from 0 ++ while ($k1 < size(llnl_temp)); init size(llnl_temp); step ite((tc_x <= llnl_temp[$k1]), $k1, $prev1{ilast}); exit ((!(pitzer_model == 1) && !(sit_model == 1)) && (tc_x <= llnl_temp[$k1]))), size(llnl_temp))])), b_llnl), ite(t2, 0, b_llnl))) * sqrt(t6)))) + (ite((t1 > 0), ite(t2, (((1 - t5) * llnl_bdot[ite((!(pitzer_model == 1) && !(sit_model == 1)), fold($k1 from 0 ++ while ($k1 < size(llnl_temp)); init 0; step ite((tc_x >= llnl_temp[$k1]), $k1, $prev1{ifirst}); exit ((!(pitzer_model == 1) && !(sit_model == 1)) && (tc_x <= llnl_temp[$k1]))), 0)]) + (t5 * llnl_bdot[ite((!(pitzer_model == 1) && !(sit_model == 1)), fold($k1 from 0 ++ while ($k1 < size(llnl_temp)); init size(llnl_temp); step ite((tc_x <= llnl_temp[$k1]), $k1, $prev1{ilast}); exit ((!(pitzer_model == 1) && !(sit_model == 1)) && (tc_x <= llnl_temp[$k1]))), size(llnl_temp))])), bdot_llnl), ite(t2, 0, bdot_llnl)) * t6)), t3))), $prev1{s_x[]->lg})"),
+  ("s_x[]->lg | gflag 8", "t1 := (size(llnl_temp) > 0); t2 := ite((mu <= 0), 1e-10, mu); ite(t1, store($prev1{s_x[]->lg}, [$k1] := ite((!(pitzer_model == 1) && !(sit_model == 1)), ite(t1, (((((llnl_co2_coefs[0] + (llnl_co2_coefs[1] * tk_x)) + (llnl_co2_coefs[2] / tk_x)) * t2) - ((llnl_co2_coefs[3] + (llnl_co2_coefs[4] * tk_x)) * (t2 / (t2 + 1)))) / LOG_10), 0), sel($prev1{s_x[]->lg}, [$k1]))), $prev1{s_x[]->lg})"),
+  ("s_x[]->lg | gflag 9", "store($prev1{s_x[]->lg}, [$k1] := ite((!(pitzer_model == 1) && !(sit_model == 1)), log10((exp((s_h2o->la * LOG_10)) * gfw_water)), sel($prev1{s_x[]->lg}, [$k1])))")
 ] := rfl
 
-/-- `read_species` — `Gamma.defaultAssign`, `applyOpt` -/
-theorem readSpeciesStmts_as_modelled : readSpeciesStmts = [
-  "}s_ptr->gflag=2",
-  "i=sscanf(next_char,SCANFORMATSCANFORMAT,&s_ptr->dha,&s_ptr->dhb)",
-  "}s_ptr->gflag=7",
-  "i=sscanf(next_char,SCANFORMAT,&s_ptr->dha)",
-  "}s_ptr->gflag=8",
-  "}s_ptr->gflag=9",
-  "s_ptr->dha=0.0",
-  "s_ptr->dhb=0.0",
-  "if(equal(s_ptr->z,0.0,TOL)==TRUE){s_ptr->gflag=0",
-  "s_ptr->dhb=0.1",
-  "}else{s_ptr->gflag=1",
-  "s_eminus->gflag=3",
-  "s_h2o->gflag=3"
+/-- `pitzer_tidy` — `lambdaCoefs`, `muLn`, `muOs`, the default and `-ALPHAS` values of alpha -/
+theorem tidyNF_as_modelled : tidyNF = [
+  ("pitz_params[]->alpha", "t1 := fabs(spec[sel(fold($k1 from 0 ++ while ($k1 < size(pitz_params)); init pitz_params[]->ispec[]; step fold($k2 from 0 ++ while ($k2 < 3); init $prev1{pitz_params[]->ispec[]}; step store($prev2{pitz_params[]->ispec[]}, [$k1; $k2] := ISPEC(pitz_params[$k1]->species[$k2])))), [$k1; 0])]->z); t2 := fabs(spec[sel(fold($k1 from 0 ++ while ($k1 < size(pitz_params)); init pitz_params[]->ispec[]; step fold($k2 from 0 ++ while ($k2 < 3); init $prev1{pitz_params[]->ispec[]}; step store($prev2{pitz_params[]->ispec[]}, [$k1; $k2] := ISPEC(pitz_params[$k1]->species[$k2])))), [$k1; 1])]->z); t3 := ite((equal(t1, 1.0, 1e-08) || equal(t2, 1.0, 1e-08)), 1, ite((equal(t1, 2.0, 1e-08) && equal(t2, 2.0, 1e-08)), 2, 3)); t4 := store($prev1{pitz_params[]->alpha}, [$k1] := 2.0); t5 := store($prev1{pitz_params[]->alpha}, [$k1] := 12.0); t6 := fold($k1 from 0 ++ while ($k1 < size(pitz_params)); init pitz_params[]->ispec[]; step fold($k2 from 0 ++ while ($k2 < 3); init $prev1{pitz_params[]->ispec[]}; step store($prev2{pitz_params[]->ispec[]}, [$k1; $k2] := ISPEC(pitz_params[$k1]->species[$k2])))); t7 := !(sel(t6, [$k1; 0]) != sel(t6, [$k2; 0])); t8 := !(sel(t6, [$k1; 1]) != sel(t6, [$k2; 1])); t9 := ((!(pitz_params[$k2]->type != TYPE_B1) && t7) && t8); t10 := sel($prev2{pitz_params[]->alpha}, [$k2]); t11 := ((!(pitz_params[$k2]->type != TYPE_B2) && t7) && t8); fold($k1 from 0 ++ while ($k1 < size(pitz_params)); init fold($k1 from 0 ++ while ($k1 < size(pitz_params)); init pitz_params[]->alpha; step ite((pitz_params[$k1]->type == TYPE_B1), switch(t3; 1 -> t4; 2 -> store($prev1{pitz_params[]->alpha}, [$k1] := 1.4); 3 -> t4; else -> $prev1{pitz_params[]->alpha}), ite((pitz_params[$k1]->type == TYPE_B2), switch(t3; 1 -> t5; 2 -> t5; 3 -> store($prev1{pitz_params[]->alpha}, [$k1] := 50.0); else -> $prev1{pitz_params[]->alpha}), $prev1{pitz_params[]->alpha}))); step ite((pitz_params[$k1]->type == TYPE_ALPHAS), fold($k2 from 0 ++ while ($k2 < size(pitz_params)); init fold($k2 from 0 ++ while ($k2 < size(pitz_params)); init $prev1{pitz_params[]->alpha}; step store($prev2{pitz_params[]->alpha}, [$k2] := ite(t9, pitz_params[$k1]->a[0], t10)); exit t9); step store($prev2{pitz_params[]->alpha}, [$k2] := ite(t11, pitz_params[$k1]->a[1], t10)); exit t11), $prev1{pitz_params[]->alpha}))"),
+  ("pitz_params[]->ln_coef[]", "t1 := fold($k1 from 0 ++ while ($k1 < size(pitz_params)); init pitz_params[]->ispec[]; step fold($k2 from 0 ++ while ($k2 < 3); init $prev1{pitz_params[]->ispec[]}; step store($prev2{pitz_params[]->ispec[]}, [$k1; $k2] := ISPEC(pitz_params[$k1]->species[$k2])))); t2 := fold($k2 from 0 ++ while ($k2 <= 2); init $prev1{count[]}; step fold($k3 from 0 ++ while ($k3 <= 2); init store($prev2{count[]}, [$k2] := 0); step ite((sel(t1, [$k1; $k2]) == sel(t1, [$k1; $k3])), store($prev3{count[]}, [$k2] := (sel($prev3{count[]}, [$k2]) + 1)), $prev3{count[]}))); t3 := sel(t2, [$k2]); t4 := ((spec[sel(fold($k1 from 0 ++ while ($k1 < size(pitz_params)); init pitz_params[]->ispec[]; step fold($k2 from 0 ++ while ($k2 < 3); init $prev1{pitz_params[]->ispec[]}; step store($prev2{pitz_params[]->ispec[]}, [$k1; $k2] := ISPEC(pitz_params[$k1]->species[$k2])))), [$k1; $k2])]->z < 0) || (spec[sel(fold($k1 from 0 ++ while ($k1 < size(pitz_params)); init pitz_params[]->ispec[]; step fold($k2 from 0 ++ while ($k2 < 3); init $prev1{pitz_params[]->ispec[]}; step store($prev2{pitz_params[]->ispec[]}, [$k1; $k2] := ISPEC(pitz_params[$k1]->species[$k2])))), [$k1; $k2])]->z > 0)); t5 := ((sel(t2, [0]) > 1) || (sel(t2, [1]) > 1)); t6 := ite(t4, ite(t5, store($prev2{pitz_params[]->ln_coef[]}, [$k1; $k2] := 3), store($prev2{pitz_params[]->ln_coef[]}, [$k1; $k2] := 6)), $prev2{pitz_params[]->ln_coef[]}); t7 := sel(t6, [$k1; $k2]); t8 := store(t6, [$k1; $k2] := ite(t4, t7, 3)); fold($k1 from 0 ++ while ($k1 < size(pitz_params)); init fold($k1 from 0 ++ while ($k1 < size(pitz_params)); init pitz_params[]->ln_coef[]; step ite((pitz_params[$k1]->type == TYPE_MU), fold($k2 from 0 ++ while ($k2 <= 2); init $prev1{pitz_params[]->ln_coef[]}; step ite((t3 == 3), store(t6, [$k1; $k2] := ite(t4, t7, 1)), ite((t3 == 2), t8, ite((t3 == 1), ite(t5, t8, store(t6, [$k1; $k2] := ite(t4, t7, 6))), t6)))), $prev1{pitz_params[]->ln_coef[]})); step ite((pitz_params[$k1]->type == TYPE_LAMBDA), ite((sel(t1, [$k1; 0]) == sel(t1, [$k1; 1])), store(store($prev1{pitz_params[]->ln_coef[]}, [$k1; 0] := 1), [$k1; 1] := 1), store(store($prev1{pitz_params[]->ln_coef[]}, [$k1; 0] := 2), [$k1; 1] := 2)), $prev1{pitz_params[]->ln_coef[]}))"),
+  ("pitz_params[]->os_coef", "t1 := fold($k1 from 0 ++ while ($k1 < size(pitz_params)); init pitz_params[]->ispec[]; step fold($k2 from 0 ++ while ($k2 < 3); init $prev1{pitz_params[]->ispec[]}; step store($prev2{pitz_params[]->ispec[]}, [$k1; $k2] := ISPEC(pitz_params[$k1]->species[$k2])))); t2 := sel(t1, [$k1; 0]); t3 := sel(t1, [$k1; 1]); t4 := sel(t1, [$k1; 2]); t5 := (((t2 == t3) || (t3 == t4)) || (t2 == t4)); t6 := (fold($k2 from 0 ++ while ($k2 <= 2); init 0; step ite((spec[sel(fold($k1 from 0 ++ while ($k1 < size(pitz_params)); init pitz_params[]->ispec[]; step fold($k2 from 0 ++ while ($k2 < 3); init $prev1{pitz_params[]->ispec[]}; step store($prev2{pitz_params[]->ispec[]}, [$k1; $k2] := ISPEC(pitz_params[$k1]->species[$k2])))), [$k1; $k2])]->z == 0), ($prev2{count_neut} + 1), $prev2{count_neut})) == 3); t7 := store($prev1{pitz_params[]->os_coef}, [$k1] := 1); t8 := ite(t6, ite(((t2 == t3) && (t3 == t4)), t7, ite(t5, store($prev1{pitz_params[]->os_coef}, [$k1] := 3), store($prev1{pitz_params[]->os_coef}, [$k1] := 6))), $prev1{pitz_params[]->os_coef}); t9 := sel(t8, [$k1]); fold($k1 from 0 ++ while ($k1 < size(pitz_params)); init fold($k1 from 0 ++ while ($k1 < size(pitz_params)); init pitz_params[]->os_coef; step ite((pitz_params[$k1]->type == TYPE_MU), ite(t5, store(t8, [$k1] := ite(t6, t9, 3)), store(t8, [$k1] := ite(t6, t9, 6))), $prev1{pitz_params[]->os_coef})); step ite((pitz_params[$k1]->type == TYPE_LAMBDA), ite((t2 == t3), store($prev1{pitz_params[]->os_coef}, [$k1] := 0.5), t7), $prev1{pitz_params[]->os_coef}))")
+] := rfl
+
+/-- `read_species` — `Gamma.defaultAssign`, `applyOpt` (gflag / dha / dhb per option index, with the option table) -/
+theorem readSpeciesNF_as_modelled : readSpeciesNF = [
+  ("s_eminus->gflag", "t1 := init('no_check', 'check', 'gamma', 'mb', 'mass_balance', 'log_k', 'logk', 'delta_h', 'deltah', 'analytical_expression', 'a_e', 'ae', 'mole_balance', 'llnl_gamma', 'co2_llnl_gamma', 'activity_water', 'add_logk', 'add_log_k', 'add_constant', 'dw', 'erm_ddl', 'millero', 'vm', 'viscosity'); t2 := get_option(t1, 24, &next_char); t3 := ite((t2 == -4), $prev1{opt_save}, t2); t4 := !$prev1{$flive}; t5 := switch(t3; -1 -> -1; -2 -> 3; else -> $prev1{return_value}); t6 := ite(($prev1{s_ptr} == NULL), t4, 1); t7 := (ite(t6, sscanf(get_option#out2(t1, 24), '%lf%lf%lf%lf%lf%lf%lf', &s_ptr->dw, &s_ptr->dw_t, &s_ptr->dw_a, &s_ptr->dw_a2, &s_ptr->dw_a_visc, &s_ptr->dw_a3, &s_ptr->dw_a_v_dif), $prev1{i}) < 1); fold($k1 from -  while true; init s_eminus->gflag; step switch(t3; -4 -> ite((strcmp(trxn.token[0].s->name, 'H+') == 0), $prev1{s_eminus->gflag}, ite((strcmp(trxn.token[0].s->name, 'H3O+') == 0), $prev1{s_eminus->gflag}, ite((strcmp(trxn.token[0].s->name, 'e-') == 0), ite(($prev1{$flive} && ite((parse_eq(line, construct(), 1) == 0), t4, 1)), 3, $prev1{s_eminus->gflag}), $prev1{s_eminus->gflag}))); else -> $prev1{s_eminus->gflag}); exit ((((t5 == -1) || (t5 == 3)) && switch(t3; 19 -> ite(t7, !($prev1{$flive} && t6), 1); else -> 1)) && switch(t3; 19 -> ite(t7, (!t6 && $prev1{$flive}), $prev1{$flive}); else -> $prev1{$flive})))"),
+  ("s_h2o->gflag", "t1 := init('no_check', 'check', 'gamma', 'mb', 'mass_balance', 'log_k', 'logk', 'delta_h', 'deltah', 'analytical_expression', 'a_e', 'ae', 'mole_balance', 'llnl_gamma', 'co2_llnl_gamma', 'activity_water', 'add_logk', 'add_log_k', 'add_constant', 'dw', 'erm_ddl', 'millero', 'vm', 'viscosity'); t2 := get_option(t1, 24, &next_char); t3 := ite((t2 == -4), $prev1{opt_save}, t2); t4 := !$prev1{$flive}; t5 := switch(t3; -1 -> -1; -2 -> 3; else -> $prev1{return_value}); t6 := ite(($prev1{s_ptr} == NULL), t4, 1); t7 := (ite(t6, sscanf(get_option#out2(t1, 24), '%lf%lf%lf%lf%lf%lf%lf', &s_ptr->dw, &s_ptr->dw_t, &s_ptr->dw_a, &s_ptr->dw_a2, &s_ptr->dw_a_visc, &s_ptr->dw_a3, &s_ptr->dw_a_v_dif), $prev1{i}) < 1); fold($k1 from -  while true; init s_h2o->gflag; step switch(t3; -4 -> ite((strcmp(trxn.token[0].s->name, 'H+') == 0), $prev1{s_h2o->gflag}, ite((strcmp(trxn.token[0].s->name, 'H3O+') == 0), $prev1{s_h2o->gflag}, ite((strcmp(trxn.token[0].s->name, 'e-') == 0), $prev1{s_h2o->gflag}, ite((strcmp(trxn.token[0].s->name, 'H2O') == 0), ite(($prev1{$flive} && ite((parse_eq(line, construct(), 1) == 0), t4, 1)), 3, $prev1{s_h2o->gflag}), $prev1{s_h2o->gflag})))); else -> $prev1{s_h2o->gflag}); exit ((((t5 == -1) || (t5 == 3)) && switch(t3; 19 -> ite(t7, !($prev1{$flive} && t6), 1); else -> 1)) && switch(t3; 19 -> ite(t7, (!t6 && $prev1{$flive}), $prev1{$flive}); else -> $prev1{$flive})))"),
+  ("s_ptr->dha", "t1 := init('no_check', 'check', 'gamma', 'mb', 'mass_balance', 'log_k', 'logk', 'delta_h', 'deltah', 'analytical_expression', 'a_e', 'ae', 'mole_balance', 'llnl_gamma', 'co2_llnl_gamma', 'activity_water', 'add_logk', 'add_log_k', 'add_constant', 'dw', 'erm_ddl', 'millero', 'vm', 'viscosity'); t2 := get_option(t1, 24, &next_char); t3 := ite((t2 == -4), $prev1{opt_save}, t2); t4 := !$prev1{$flive}; t5 := ite(($prev1{s_ptr} == NULL), t4, 1); t6 := ($prev1{$flive} && t5); t7 := get_option#out2(t1, 24); t8 := switch(t3; -1 -> -1; -2 -> 3; else -> $prev1{return_value}); t9 := (ite(t5, sscanf(t7, '%lf%lf%lf%lf%lf%lf%lf', &s_ptr->dw, &s_ptr->dw_t, &s_ptr->dw_a, &s_ptr->dw_a2, &s_ptr->dw_a_visc, &s_ptr->dw_a3, &s_ptr->dw_a_v_dif), $prev1{i}) < 1); fold($k1 from -  while true; init s_ptr->dha; step switch(t3; -4 -> ite(($prev1{$flive} && ite((parse_eq(line, construct(), 1) == 0), t4, 1)), 0.0, $prev1{s_ptr->dha}); 13 -> ite(t6, sscanf#out2(t7, '%lf'), $prev1{s_ptr->dha}); 2 -> ite(t6, sscanf#out2(t7, '%lf%lf'), $prev1{s_ptr->dha}); else -> $prev1{s_ptr->dha}); exit ((((t8 == -1) || (t8 == 3)) && switch(t3; 19 -> ite(t9, !t6, 1); else -> 1)) && switch(t3; 19 -> ite(t9, (!t5 && $prev1{$flive}), $prev1{$flive}); else -> $prev1{$flive})))"),
+  ("s_ptr->dhb", "t1 := init('no_check', 'check', 'gamma', 'mb', 'mass_balance', 'log_k', 'logk', 'delta_h', 'deltah', 'analytical_expression', 'a_e', 'ae', 'mole_balance', 'llnl_gamma', 'co2_llnl_gamma', 'activity_water', 'add_logk', 'add_log_k', 'add_constant', 'dw', 'erm_ddl', 'millero', 'vm', 'viscosity'); t2 := get_option(t1, 24, &next_char); t3 := ite((t2 == -4), $prev1{opt_save}, t2); t4 := !$prev1{$flive}; t5 := ($prev1{$flive} && ite((parse_eq(line, construct(), 1) == 0), t4, 1)); t6 := ite(($prev1{s_ptr} == NULL), t4, 1); t7 := ($prev1{$flive} && t6); t8 := get_option#out2(t1, 24); t9 := switch(t3; -1 -> -1; -2 -> 3; else -> $prev1{return_value}); t10 := (ite(t6, sscanf(t8, '%lf%lf%lf%lf%lf%lf%lf', &s_ptr->dw, &s_ptr->dw_t, &s_ptr->dw_a, &s_ptr->dw_a2, &s_ptr->dw_a_visc, &s_ptr->dw_a3, &s_ptr->dw_a_v_dif), $prev1{i}) < 1); fold($k1 from -  while true; init s_ptr->dhb; step switch(t3; -4 -> ite((equal(s_ptr->z, 0.0, 1e-09) == 1), ite(t5, 0.1, $prev1{s_ptr->dhb}), ite(t5, 0.0, $prev1{s_ptr->dhb})); 2 -> ite(t7, sscanf#out3(t8, '%lf%lf'), $prev1{s_ptr->dhb}); else -> $prev1{s_ptr->dhb}); exit ((((t9 == -1) || (t9 == 3)) && switch(t3; 19 -> ite(t10, !t7, 1); else -> 1)) && switch(t3; 19 -> ite(t10, (!t6 && $prev1{$flive}), $prev1{$flive}); else -> $prev1{$flive})))"),
+  ("s_ptr->gflag", "t1 := init('no_check', 'check', 'gamma', 'mb', 'mass_balance', 'log_k', 'logk', 'delta_h', 'deltah', 'analytical_expression', 'a_e', 'ae', 'mole_balance', 'llnl_gamma', 'co2_llnl_gamma', 'activity_water', 'add_logk', 'add_log_k', 'add_constant', 'dw', 'erm_ddl', 'millero', 'vm', 'viscosity'); t2 := get_option(t1, 24, &next_char); t3 := ite((t2 == -4), $prev1{opt_save}, t2); t4 := !$prev1{$flive}; t5 := ($prev1{$flive} && ite((parse_eq(line, construct(), 1) == 0), t4, 1)); t6 := ite(($prev1{s_ptr} == NULL), t4, 1); t7 := ($prev1{$flive} && t6); t8 := switch(t3; -1 -> -1; -2 -> 3; else -> $prev1{return_value}); t9 := (ite(t6, sscanf(get_option#out2(t1, 24), '%lf%lf%lf%lf%lf%lf%lf', &s_ptr->dw, &s_ptr->dw_t, &s_ptr->dw_a, &s_ptr->dw_a2, &s_ptr->dw_a_visc, &s_ptr->dw_a3, &s_ptr->dw_a_v_dif), $prev1{i}) < 1); fold($k1 from -  while true; init s_ptr->gflag; step switch(t3; -4 -> ite((equal(s_ptr->z, 0.0, 1e-09) == 1), ite(t5, 0, $prev1{s_ptr->gflag}), ite(t5, 1, $prev1{s_ptr->gflag})); 13 -> ite(t7, 7, $prev1{s_ptr->gflag}); 14 -> ite(t7, 8, $prev1{s_ptr->gflag}); 15 -> ite(t7, 9, $prev1{s_ptr->gflag}); 2 -> ite(t7, 2, $prev1{s_ptr->gflag}); else -> $prev1{s_ptr->gflag}); exit ((((t8 == -1) || (t8 == 3)) && switch(t3; 19 -> ite(t9, !t7, 1); else -> 1)) && switch(t3; 19 -> ite(t9, (!t6 && $prev1{$flive}), $prev1{$flive}); else -> $prev1{$flive})))")
 ] := rfl
 
 end PhreeqcVerif.C16Src
